@@ -190,16 +190,22 @@ _workdir = [None]
 MODEL_STAGES = ('ascii', 'text', 'literal', 'subprocess-text')
 
 
-def workdir():
+def workdir(base=None):
+    """a scratch directory of this process (below `base`, which the parent removes at the end of the run)"""
     if _workdir[0] is None or not os.path.isdir(_workdir[0]):
-        _workdir[0] = tempfile.mkdtemp(prefix='c09cli_')
+        if base and os.path.isdir(base):
+            _workdir[0] = os.path.join(base, 'p%d' % os.getpid())
+            os.makedirs(_workdir[0], exist_ok=True)
+        else:
+            _workdir[0] = tempfile.mkdtemp(prefix='c09cli_')
     return _workdir[0]
 
 
 def pipeline_worker(args):
     b, opts = args
     try:
-        r = cli_io.pipeline(b, workdir(), **opts)
+        opts = dict(opts)
+        r = cli_io.pipeline(b, workdir(opts.pop('base', None)), **opts)
         if r.get('decode') == 'ok':
             from pybufrkit.decoder import Decoder
             from pybufrkit.renderer import FlatJsonRenderer
@@ -222,9 +228,10 @@ def pipeline_worker(args):
 def glue_worker(args):
     msgs, opts = args
     try:
-        d = tempfile.mkdtemp(prefix='c09glue_')
+        opts = dict(opts)
+        base = opts.pop('base', None)
+        d = tempfile.mkdtemp(prefix='c09glue_', dir=base if base and os.path.isdir(base) else None)
         try:
-            opts = dict(opts)
             if opts.pop('subprocess', False):
                 opts['runner'] = cli_io.run_subprocess
             return cli_io.glue(msgs, d, **opts)
@@ -277,6 +284,9 @@ def check_layer(ctx, drv, layers, no_failing_input=False):
             why = 'json.loads(%s) = %r, model %s' % (it['lit'][:100], it['back'], m['back'])
         elif it['field'] != m['field'] or m['field'] != m['field_direct']:
             why = 'write_bytes(<text read from JSON>, %d) writes %s, model fieldCode %s' % (it['k'], it['field'], m['field'])
+        elif it.get('repr') != m.get('repr') or it.get('repr_back') != m.get('repr_back') or m.get('repr_back') != it['hex']:
+            why = 'repr(%r) = %s, ast.literal_eval of it %s; model (C09_bytes_repr_roundtrip) %s, read back %s' % (
+                bytes.fromhex(it['hex']), it.get('repr'), it.get('repr_back'), m.get('repr'), m.get('repr_back'))
         if why:
             ctx.violation('correspondence cli text-layer: ' + why, {'cli': True, 'layer': it, 'model': m, 'why': why},
                           signature={'kind': 'correspondence', 'stage': 'cli:text-layer'}, no_failing_input=no_failing_input)
@@ -344,8 +354,18 @@ def check_strings(ctx, drv):
 
 def run_cli(ctx, drv, pool, extra_messages=()):
     """`extra_messages`: [(tag, bytes)] sampled from the other C09 streams / sample files by the caller"""
+    base = tempfile.mkdtemp(prefix='c09cli_')
+    try:
+        return _run_cli(ctx, drv, pool, extra_messages, base)
+    finally:
+        shutil.rmtree(base, ignore_errors=True)
+
+
+def _run_cli(ctx, drv, pool, extra_messages, base):
     rng = ctx.rng('cli')
     quick = ctx.tier == 'quick'
+    _workdir[0] = None
+    workdir(base)    # the parent's own scratch directory (shrinking) lives below `base` too
     n_cases = 160 if quick else 3000
     n_sub = 3 if quick else 24       # messages whose four pipelines also run through real processes
     _sweep[0] = 0
@@ -358,8 +378,8 @@ def run_cli(ctx, drv, pool, extra_messages=()):
             continue
         c['b'] = b
         cases.append(c)
-    jobs = [(c['b'], {'subprocess_too': k < n_sub, 'via': None}) for k, c in enumerate(cases)]
-    jobs += [(b, {}) for _, b in extra_messages]
+    jobs = [(c['b'], {'subprocess_too': k < n_sub, 'via': None, 'base': base}) for k, c in enumerate(cases)]
+    jobs += [(b, {'base': base}) for _, b in extra_messages]
     tags = ['chars:' + c['shape'] for c in cases] + [t for t, _ in extra_messages]
     # the slow ones (real processes) first
     results = pool.map(pipeline_worker, jobs, chunksize=1)
@@ -416,20 +436,20 @@ def run_cli(ctx, drv, pool, extra_messages=()):
     for k in range(6 if quick else 60):
         a = multi[(k * 7) % len(multi)]
         others = [cases[(k * 11 + 3) % len(cases)], cases[(k * 13 + 5) % len(cases)]]
-        groups.append(([a['b']] + [o['b'] for o in others], {'char_id': '001015' if 1015 in a['ids'] else '001026', 'light': False}))
+        groups.append(([a['b']] + [o['b'] for o in others], {'char_id': '001015' if 1015 in a['ids'] else '001026', 'light': False, 'base': base}))
     for k in range(1 if quick else 6):
         a = multi[(k * 5 + 1) % len(multi)]
-        groups.append(([a['b'], cases[(k * 3 + 2) % len(cases)]['b']], {'char_id': '001015', 'light': True, 'subprocess': True}))
+        groups.append(([a['b'], cases[(k * 3 + 2) % len(cases)]['b']], {'char_id': '001015', 'light': True, 'subprocess': True, 'base': base}))
     for (msgs, opts), r in zip(groups, pool.map(glue_worker, groups, chunksize=1)):
         if 'harness_error' in r:
             raise core.MachineryError('cli glue failed: ' + r['harness_error'])
-        ctx.case({'cli-glue': [core.chash(m.hex()) for m in msgs], 'opts': sorted(opts)}, nontrivial=True)
+        ctx.case({'cli-glue': [core.chash(m.hex()) for m in msgs], 'opts': sorted(k for k in opts if k != 'base')}, nontrivial=True)
         ctx.count('cli:glue-groups' + (':subprocess' if opts.get('subprocess') else ''))
         for k, v in r['stats'].items():
             ctx.count('cli:glue-' + k, v)
         if r['problems']:
             stage, why = r['problems'][0]
-            ctx.violation('oracle cli glue %s: %s' % (stage, why), {'cli': True, 'glue': [m.hex() for m in msgs], 'opts': {k: v for k, v in opts.items()},
+            ctx.violation('oracle cli glue %s: %s' % (stage, why), {'cli': True, 'glue': [m.hex() for m in msgs], 'opts': {k: v for k, v in opts.items() if k != 'base'},
                                                                     'stage': stage, 'why': why},
                           signature={'kind': 'oracle', 'stage': 'cli:glue:' + stage.split(':')[0]})
 
